@@ -1,8 +1,6 @@
 package rules
 
 import (
-	"go/token"
-	"go/types"
 	"strings"
 
 	"golang.org/x/tools/go/ssa"
@@ -262,19 +260,14 @@ func ruleRepairSnapshotsEffects(c *eng.Ctx) {
 		}
 		c.Check(len(bad) == 0, rule, c.P.FnName(l)+":writes-only-Content-and-Size", l.Pos(), "the repair node rewriter stores only to Node.Content/Node.Size (fields written: %v)", keysOf(stores))
 		// … and only for regular files
-		typeF := c.P.Field("internal/data.Node", "Type")
-		fileK, _ := c.P.Obj("internal/data.NodeTypeFile").(*types.Const)
-		if typeF != nil && fileK != nil {
-			isFile := eng.CmpEdges(l, func(op token.Token, x, y ssa.Value) (bool, bool) {
-				if (op != token.EQL && op != token.NEQ) || !eng.LoadsField(x, typeF) {
-					return false, false
+		{
+			isFile := nodeTypeEdges(c, l, nil, "NodeTypeFile")
+			nst := 0
+			defer func() {
+				if nst == 0 {
+					c.Unk(rule, c.P.FnName(l)+":only-regular-files-modified", l.Pos(), "no store to a Node field found to check")
 				}
-				k, ok := y.(*ssa.Const)
-				if !ok || k.Value == nil || k.Value.ExactString() != fileK.Val().ExactString() {
-					return false, false
-				}
-				return true, op == token.EQL
-			})
+			}()
 			for _, b := range l.Blocks {
 				for _, in := range b.Instrs {
 					st, ok := in.(*ssa.Store)
@@ -282,6 +275,7 @@ func ruleRepairSnapshotsEffects(c *eng.Ctx) {
 						continue
 					}
 					if fa, ok := st.Addr.(*ssa.FieldAddr); ok && strings.Contains(eng.FieldName(fa.X.Type(), fa.Field), "data.Node.") {
+						nst++
 						c.MustPass(rule, c.P.FnName(l)+":only-regular-files-modified", eng.Entry(l), st, eng.NewCut().AddEdges(isFile...), "node.Type == NodeTypeFile")
 					}
 				}
